@@ -413,6 +413,11 @@ def finish(ctx, proof, write=True):
         elif u.mismatches:
             broken.append(dict(kind="correspondence", name=u.name, detail=jsonable(u.mismatches[:3])))
 
+    # most of the monitor's runs could not be executed (they raised something the monitor does not judge): nothing was explored
+    if ctx.monitor_runs >= 20 and len(ctx.blocked) * 2 > ctx.monitor_runs:
+        broken.append(dict(kind="blocked-runs", name="monitor", detail="%d of %d monitor runs were blocked; first: %s"
+                           % (len(ctx.blocked), ctx.monitor_runs, json.dumps(jsonable(ctx.blocked[:2]))[:800])))
+
     status = 0
     replay_paths = []
     if new_violations:
@@ -468,7 +473,7 @@ def finish(ctx, proof, write=True):
             samples=samples,
             units=[u.summary() for u in ctx.units],
             monitor=dict(runs=ctx.monitor_runs, distinct_nontrivial=len(ctx.monitor_nontrivial), rule=ctx.monitor_rule,
-                         violations=len(ctx.violations), known_findings=sorted(known_hit), blocked=jsonable(ctx.blocked[:10])),
+                         violations=len(ctx.violations), known_findings=sorted(known_hit), blocked_total=len(ctx.blocked), blocked=jsonable(ctx.blocked[:10])),
             theorems=thms, broken=jsonable(broken), notes=ctx.notes,
             exhaustive=all(u.exhaustive for u in ctx.units) if ctx.units else False,
         ),
